@@ -4,7 +4,7 @@
    Graphs are adjacency lists (node i -> list of successors, with multiplicity), nodes are
    natural numbers, the Go value -1 is [None].  All statements are for EVERY graph and root. *)
 From Coq Require Import List Arith.
-From MM Require Import Base.GDGraph Spec.Dom Model.Dom Proofs.DomSpec Proofs.DomModel Proofs.DomFrontier.
+From MM Require Import Base.GDGraph Spec.Dom Model.Dom Proofs.DomSpec Proofs.DomModel Proofs.DomFrontier Proofs.DomDFS Proofs.DomCHK.
 Import ListNotations.
 
 (* ---- the specification oracle (what the Go results are compared with) ---- *)
@@ -114,6 +114,29 @@ Theorem C19_chk_fixed_point_sound : forall g r fuel insl poNum idom,
   forall b a, In b (reach g r) -> chain idom b a -> dominates g r a b.
 Proof. exact chk_fixed_point_sound. Qed.
 Print Assumptions C19_chk_fixed_point_sound.
+
+(* ---- PostOrder (order.go:31-47) as used by IDom ---- *)
+(* with fuel > V the model of PostOrder never panics; reversed, it lists exactly the reachable
+   nodes, once each, the root first, every other node after one of its predecessors *)
+Theorem C19_postorder : forall g, wf g -> forall fuel r, r < length g -> length g < fuel ->
+  exists rpo, rpostorder fuel g r = Ok rpo /\
+    NoDup rpo /\ (forall u, In u rpo <-> In u (reach g r)) /\
+    (exists t, rpo = r :: t) /\
+    (forall u, In u rpo -> u <> r -> exists p, before rpo p u /\ In u (succs g p)).
+Proof. exact rpostorder_spec. Qed.
+Print Assumptions C19_postorder.
+
+(* ---- IDom = idom_spec (total up to the bound on the number of sweeps) ---- *)
+(* On EVERY well-formed graph (unreachable nodes, self-loops, parallel edges, irreducible loops
+   included) and every root, with fuel >= 2V+1: the model of IDom never panics — no slice index
+   out of range, intersect never follows a -1 link and always meets — and if the outer
+   "for changed" loop stops within [fuel] sweeps, the result is exactly idom_spec_list.
+   (NoFuel can only come from the outer loop: PostOrder, intersect and each sweep are shown
+   to complete.)  The bound on the number of sweeps is NOT proved: see meta/C19.json, partial. *)
+Theorem C19_idom_chk_correct_partial : forall g r fuel, wf g -> r < length g -> 2 * length g + 1 <= fuel ->
+  idom_chk fuel g r = NoFuel \/ idom_chk fuel g r = Ok (idom_spec_list g r).
+Proof. exact chk_correct_partial. Qed.
+Print Assumptions C19_idom_chk_correct_partial.
 
 (* ---- non-vacuity: Cooper-Harvey-Kennedy's irreducible example (their figure 4, nodes renumbered
    5->0 .. 1->4), with an unreachable node 5 feeding the join 4 and a self-loop on 3 ---- *)
